@@ -34,7 +34,7 @@ type errException struct {
 var storageErrExceptions = []errException{
 	{"<retire>", "*", []an.ErrVerdict{an.ErrSwallowed, an.ErrDropped}, "retiring merged parents is best-effort by design: a parent left in current/ is merely merged again (applies to the function that copies to merged/ and deletes from current/, and to the loop that calls it)", nil},
 	{"kv.mergeRoots", "Load", []an.ErrVerdict{an.ErrSwallowed}, "merge-on-open skips a version whose objects answer a well-formed NoSuchKey (vacuumed), only when listing", []string{"nosuchkey", "param:skipUnreadable"}},
-	{"kv.mergeRoots", "Clone", []an.ErrVerdict{an.ErrSwallowed}, "merge-on-open skips a version it cannot fold, only when listing (never for an explicit version set)", []string{"param:skipUnreadable"}},
+	{"kv.mergeRoots", "Clone", []an.ErrVerdict{an.ErrSwallowed}, "merge-on-open skips a version it cannot fold because an object answers a well-formed NoSuchKey (vacuumed), only when listing (never for an explicit version set). Until repair c76a515 this entry demanded only the skipUnreadable guard: a transport error then left a committed version out of an open that reported success", []string{"nosuchkey", "param:skipUnreadable"}},
 	{"kv.loadRootFromAny", "loadRoot", []an.ErrVerdict{an.ErrSwallowed}, "a well-formed NoSuchKey in one prefix means: try the next prefix", []string{"nosuchkey"}},
 	{"(*kv.DB).getHistoricRootsAndNodes", "Load", []an.ErrVerdict{an.ErrSwallowed}, "vacuum candidate discovery skips what it cannot read: fewer deletions, the safe direction", nil},
 	{"(*kv.DB).getHistoricRootsAndNodes", "DiffLinks", []an.ErrVerdict{an.ErrSwallowed, an.ErrDropped}, "vacuum candidate discovery skips what it cannot diff: fewer deletions, the safe direction", nil},
@@ -303,7 +303,7 @@ func guardsHold(fn *ssa.Function, flow *an.ErrFlow, guards []string) string {
 func init() {
 	register(&Rule{Name: "C14.handle", Min: 4, Run: c14Handle,
 		Doc: "every store that replaces a live kv handle (KV.Root, VirtualTable.Tree) is preceded on all paths by Cancel() of the handle being dropped"})
-	register(&Rule{Name: "C14.split-index", Min: 6, Run: c14SplitIndex,
+	register(&Rule{Name: "C14.split-index", Min: 3, Run: c14SplitIndex,
 		Doc: "an index >= 1 into the result of strings.Split/SplitN is only reached through a sufficient len test"})
 	byProp["C14"] = append(byProp["C14"], "C14.handle", "C14.split-index", "C07.null-operand", "C03.commit-order")
 	explain["C14"] += " Further clauses: handle (kv's own contract: a dirty handle that is dropped without Cancel() makes its finalizer panic the host at the next GC), split-index (module arguments without '=' must not index past the split: the panic would cross cgo), null-operand (shared with C07), commit-order (shared with C03: success is acknowledged only after the version PUT)."
